@@ -18,6 +18,7 @@ import FP.Model.TablesJson
 import FP.Model.Enc.KFDCWitness
 import FP.Model.Enc.ErrCheck
 import FP.Model.Width
+import FP.Model.Enc.WalkSafety
 /-!
 # FP.Model.Enc.Handlers — the `lp.*` handlers of the encoder modules, for `Driver.lean`
 -/
@@ -26,6 +27,6 @@ open Lean
 
 def encHandlersAll : List (String → Json → Option (Except String Json)) :=
   [handleKLAE, handleKMPE, handleKCover, handleMGS, handleMSC, handleMEF,
-   handleKFDC, handleKCoverC, handleKLAEC, handleKMPEC, FP.Parser.handleParser, FP.MFD.handleMFD, NX.handleNodeExpand, handleK4, handleKFDCWitness, handleErrCheck, handleWidth, Safety.handleSafety, handleC17, handleIgnoreBlock]
+   handleKFDC, handleKCoverC, handleKLAEC, handleKMPEC, FP.Parser.handleParser, FP.MFD.handleMFD, NX.handleNodeExpand, handleK4, handleKFDCWitness, handleErrCheck, handleWidth, Safety.handleSafety, handleC17, handleIgnoreBlock, handleWalkSafety]
 
 end FP
